@@ -342,6 +342,23 @@ def _range_checks(cal_id, acc):
                         lambda n=n: impl.date_from_days(cal, n), {"calendar": cal_id, "day": n})
         for y in (cal.min_year - 1, cal.max_year + 1, cal.min_year - 2, cal.max_year + 2):
             _must_raise(acc, "C01/%s/range/accepts-year" % cal_id, "LocalDate(%d, 1, 1)" % y, lambda y=y: LocalDate(y, 1, 1, cal), {"calendar": cal_id, "year": y})
+        # every era constant that the calendar does not list must be refused (also eras of OTHER calendars with the same name)
+        try:
+            from pyoda_time.calendars import Era
+            all_eras = [v for k, v in vars(type(Era)).items() if not k.startswith("_") and isinstance(getattr(Era, k, None), Era)]
+            all_eras = [getattr(Era, k) for k in dir(type(Era)) if not k.startswith("_") and isinstance(getattr(Era, k, None), Era)]
+            own = list(cal.eras())
+            for era in all_eras:
+                if any(era is o for o in own):
+                    continue
+                for what, fn in (("get_absolute_year", lambda era=era: cal.get_absolute_year(1, era)),
+                                 ("get_min_year_of_era", lambda era=era: cal.get_min_year_of_era(era)),
+                                 ("get_max_year_of_era", lambda era=era: cal.get_max_year_of_era(era)),
+                                 ("LocalDate(era=)", lambda era=era: LocalDate(max(1, cal.min_year), 1, 1, cal, era))):
+                    _must_raise(acc, "C01/%s/eras/foreign-era-accepted/%s" % (cal_id, what), "%s with era %s which the calendar does not list" % (what, era.name), fn,
+                                {"calendar": cal_id, "era": era.name})
+        except ImportError:
+            pass
         # ISO dates one day outside the target range must not convert
         for n in (lo - 1, hi + 1):
             try:
